@@ -117,6 +117,19 @@ CHECKS = {
              'state/target/source/circuit, attachment lists of every Circuit object ever created.',
         note='Trusted: refs/tormodel.py (events control-spec documents), mc/simtor.py. For snapshot-born objects only fields '
              'the snapshot carries are compared.'),
+    'C08': dict(
+        engine=E1, design='DESIGN.md section 4 / C08',
+        technique='full enumeration of model histories x operation positions (listener add/remove, wait requests, close '
+                  'requests, ack-vs-event order) on the real TorState, listener call log compared with a reference expansion',
+        text='Every maximal history (<= 9 events quick / 11 thorough; 1129 / ~1900 histories) of one circuit and one stream from '
+             'the life-cycle model, crossed with: a global listener added before every position and removed before every later '
+             'position (call log must equal the reference expansion of exactly the events in between, flags under upper- and '
+             'lower-case keys); when_built()/when_closed() requested at every pair of positions; Circuit.close()/Stream.close() '
+             'at every position where the object is alive, repeated at every later such position, with the command '
+             'acknowledged before or only after the CLOSED/FAILED event. Checked after every event (nothing completes early) '
+             'and at the end (everything completes exactly once).',
+        note='Trusted: refs/tormodel.py, the reference expansion in props/c08.py. NEWRESOLVE streams and requests on objects '
+             'Tor no longer has are outside the alphabet.'),
 }
 
 PENDING = {}
